@@ -10,124 +10,128 @@ PY = "/venv/bin/python"
 
 CLAIMS = {
     "C01": dict(
-        text="Decides the structural, necessary part of 'compiled TEAL computes what the expression denotes': operand order and arity at every emission site and factory, the block wiring of every control construct (edge facts from a def-use analysis of each __teal__ compared with a reference lowering), and the local invariants of the block passes (NormalizeBlocks, sortBlocks, flattenBlocks, replaceOutgoing). It does not decide arithmetic meaning or outcome equality over inputs.",
-        note="Trusted: CPython ast, /verif/sa resolution, reference lowering in spec/lowering.py and op signatures in spec/avm.py. Behaviour over inputs is not decided.",
-        technique="def-use edge-fact extraction vs reference lowering; emission-site operand order; pattern rules on graph passes",
+        text="Decides the structural, necessary part of 'compiled TEAL computes what the expression denotes': block wiring of every control construct (def-use edge facts of each __teal__ against a reference lowering, including the order in which aliased edges are written), operand order/arity at every emission site and factory, a frozen API->opcode table and the operator overloads, a finite abstract evaluation of flattenBlocks' branch emission over all successor configurations, the invariants of sortBlocks / NormalizeBlocks / replaceOutgoing, the loop-stack LIFO discipline, the implicit Return and the terminator set. It does not decide arithmetic meaning or outcome equality over inputs.",
+        note="Trusted: CPython ast, /verif/sa resolution and evaluators, reference lowering (spec/lowering.py), op signatures (spec/avm.py), API table (spec/api_ops.py).",
+        technique="def-use edge facts vs reference lowering; emission-site extraction by partial evaluation; finite abstract evaluation of branch emission; table comparison",
         ref="4/C01",
     ),
     "C02": dict(
-        text="Decides that the calling convention is consistent across the sites that implement it: the 'callee leaves a value' fact is computed from the callee at every site, argument and frame indices use the same linear forms, the spill code around re-entrant calls is height-neutral with paired load/store, and recursion guards precede spilling. Values under recursion are not decided.",
-        note="Trusted: ast, resolution code, the stack-effect table in spec/avm.py.",
-        technique="sibling cross-check, symbolic stack-effect (linear forms), dominance",
+        text="Decides that the calling convention is implemented consistently: the spill/restore builder is evaluated (bounded, by our own evaluator over its syntax tree) for every strategy, arity, slot count and caller/callee return kind and pushed through an abstract stack machine (caller's operands and locals unchanged, exactly the callee's result on top); SubroutineEval.evaluate/__proto are evaluated over parameter-kind shapes in both conventions (binding order, frame indices, proto, ABI output cell, deferred load); call-site operand order and declared type; recursion points vs graph reachability; Return's decision table. Values under recursion at run time are not decided.",
+        note="Trusted: ast, sa.minieval (bounded partial evaluation of analysed source, nothing of PyTeal executed), the abstract stack machine, op table.",
+        technique="bounded partial evaluation of op-list builders + abstract stack machine; abstract evaluation of constructors over symbolic objects; decision-table comparison",
         ref="4/C02",
     ),
     "C03": dict(
-        text="Decides the guards that make the slot optimiser sound (skip set, load-dependency scan over the whole routine, paired deletions) and the version-default table of OptimizeOptions. Equivalence over inputs is not decided.",
-        note="Trusted: ast, resolution code, docs/compiler_optimization.rst defaults as transcribed in the rule.",
-        technique="dominance and who-guards-what over the optimiser; table extraction",
+        text="Decides the soundness conditions of the slot optimiser on its own code: skip-set construction on an abstract program (exactly reserved, dynamically indexed and shared slots), dependency scan over branch/loop shaped graphs, cancellation+deletion over all short op sequences compared through an abstract stack machine, freshness of the skip set per compilation, and the documented defaults table of OptimizeOptions. Equivalence of whole programs over inputs is not decided.",
+        note="Trusted: ast, sa.minieval, docs/compiler_optimization.rst as transcribed in the rule.",
+        technique="abstract evaluation of the optimiser's source on abstract block graphs; bounded enumeration of op sequences; dominance",
         ref="4/C03",
     ),
     "C04": dict(
-        text="Decides target legality structurally: PyTeal's op and field tables equal an independent AVM reference table; every field immediate is version-gated and every integer immediate bounded at its emission site; the final op sweep lies on every path to assembly; placeholders are refused by assemble and rewritten for every op; labels are unique per routine; has_return() is sound per class.",
-        note="Trusted: ast, resolution code, the hand-written AVM table (spec/avm.py).",
-        technique="table comparison, dominance/must-pass-through, provenance of immediates",
+        text="Decides target legality structurally: PyTeal's op and field tables equal an independent AVM reference; field immediates are version-gated and integer immediates bounded at every emission site; the final version/mode sweep is evaluated and lies on every path before assembly; placeholders are refused / totally rewritten; labels are unique (sanitised name + index, per-routine prefixes, label iff referenced); has_return() is sound for every class over all child combinations.",
+        note="Trusted: ast, resolution code, evaluators, the hand-written AVM table (spec/avm.py).",
+        technique="table comparison, dominance/must-pass-through, provenance of immediates, abstract evaluation",
         ref="4/C04",
     ),
     "C05": dict(
-        text="Decides stack/type discipline at the level of the compiler's own code: each emission site is typed against the op signature under constructor-time require_type constraints, declared result types equal the op's pushes, literal op lists have the declared stack effect, construct typing rules are enforced in constructors.",
-        note="Trusted: ast, resolution code, op signatures in spec/avm.py. Programs using raw ScratchSlot.store() are excluded by the property.",
-        technique="type-level emission-site check; abstract stack effect of literal op lists",
+        text="Decides stack/type discipline on the compiler's own code: each emission site is typed against the op signature under the require_type constraints that dominate it; declared result types equal the op's pushes; hand-written op lists (WideRatio, Suffix, DupN, frame layout, MultiValue stores, recursion spill) are pushed through a typed abstract stack machine; the construct typing table and the require_type relation itself; optimiser deletions are stack-neutral over all short sequences.",
+        note="Trusted: ast, evaluators, op signatures in spec/avm.py. Programs using raw ScratchSlot.store() are excluded by the property.",
+        technique="type-level emission-site check; abstract stack/term machine over literal op lists",
         ref="4/C05",
     ),
     "C06": dict(
-        text="Decides ABI descriptor tables against the ARC-4 reference, agreement of all tuple layout walkers, and presence and bound of integer/length range checks. Byte-for-byte encodings over values are not decided.",
-        note="Trusted: ast, resolution code, spec/arc4.py.",
-        technique="table comparison, sibling cross-check, must-pass-through",
+        text="Decides ABI type descriptors (signature string, dynamic-ness, static length) for a bounded nested universe by interpreting the repository's own TypeSpec classes against an ARC-4 reference model; _encode_tuple on all short member-kind sequences with symbolic values (head order, bool runs, running tail offsets as linear forms, tail order); uint range checks and big-endian narrowing; bool packing; dynamic-array length prefix. Bytes produced at run time are not executed.",
+        note="Trusted: ast, sa.minieval, spec/arc4.py.",
+        technique="abstract evaluation over symbolic ABI values; linear-form comparison; table comparison",
         ref="4/C06",
     ),
     "C07": dict(
-        text="Decides decoder selection tables, layout-walker agreement shared with C06, and classifies each element-access path by whether an out-of-range index is made to fail. Round-trip equality over values is not decided.",
-        note="Trusted: ast, resolution code, spec/arc4.py.",
-        technique="sibling cross-check, path classification",
+        text="Decides _index_tuple addressing for all short member-kind sequences and long bool runs against ARC-4 positions, decoder selection tables (substring_for_decoding, uint_decode, Bool.decode), array element addressing terms, a per-path audit of out-of-range behaviour, and the immediate ranges of extract/substring forms. Extraction on real bytes is not executed.",
+        note="Trusted: ast, sa.minieval, spec/arc4.py.",
+        technique="abstract evaluation, position comparison, path classification",
         ref="4/C07",
     ),
     "C08": dict(
-        text="Decides the dispatch decision tables (CallConfig conditions, field/OnComplete pairing, disjunction shape), that guards precede handlers, reject defaults, and that registration checks dominate registration. Run-time evaluation of the generated Cond is C01.",
-        note="Trusted: ast, resolution code, OnCompletion numbering in spec/avm.py.",
-        technique="table extraction from match/if chains, ordering (dominance)",
+        text="Decides router dispatch at the level of the constructed expression trees: MethodConfig.approval_cond for all 4^5 configurations, bare-call construction, to_cond_node, program_construction and _build_program are evaluated on symbolic handlers and the resulting Cond/Seq/Assert trees are interpreted by a small reference semantics over all call contexts and compared with the registration; registration checks dominate registration; clear-state wrapping. Run-time evaluation of the compiled TEAL is C01.",
+        note="Trusted: ast, sa.minieval, the reference semantics of Cond/Seq/Assert in rules/c08.py, OnCompletion numbering.",
+        technique="abstract evaluation of construction code + reference interpretation of the built decision trees (exhaustive over configurations)",
         ref="4/C08",
     ),
     "C09": dict(
-        text="Decides the ARC-4 argument plumbing structurally: cutoff partition and index arithmetic as linear forms, transaction-parameter index relation and type asserts, return prefix provenance, exactly-one log on non-void paths, and contract/selector name provenance.",
-        note="Trusted: ast, resolution code, ARC-4 constants in spec/avm.py.",
-        technique="linear-form comparison, provenance, must-pass-through",
+        text="Decides the ARC-4 argument plumbing: the decoding and glue builders are evaluated on symbolic parameter lists (0..20 plain parameters, transactions anywhere, with/without output, both conventions) - application-argument indices, the 15-argument tuple cutoff, transaction index arithmetic and type asserts, frame cells, exactly one MethodReturn before Approve; the return prefix constant (read statically from algosdk); contract name vs selector name.",
+        note="Trusted: ast, sa.minieval, ARC-4 constants.",
+        technique="abstract evaluation over symbolic parameter lists; provenance",
         ref="4/C09",
     ),
     "C10": dict(
-        text="Decides the slot allocator's structure: fresh-index idiom, 256 limit and duplicate-id rejection before numbering, identity keying of slots, total rewrite of placeholders, frame-local bound, who may rewind the id counter.",
-        note="Trusted: ast, resolution code.",
-        technique="dominance, who-may-call, interval extraction from guards",
+        text="Decides the slot allocator: evaluated on programs mixing requested and automatic slots (injective, requested ids honoured, total rewrite, duplicate/257 refused, 256 accepted), the ScratchSlot constructor, the frame-local allocator around the 128 boundary, and who may rewind the id counter. Run-time isolation of values is not decided.",
+        note="Trusted: ast, sa.minieval.",
+        technique="abstract evaluation on abstract programs; who-may-call",
         ref="4/C10",
     ),
     "C11": dict(
-        text="Decides determinism structurally: the inventory of process-global mutable state is closed, ids are used only by order, save/restore is exception-safe, no iteration over hash-ordered sets reaches output, and each compilation builds a fresh graph.",
+        text="Decides determinism structurally: closed inventory of process-global mutable state, ids used by order only, exception-safe restore of saved state, no hash-ordered iteration on the compile path, no state stored by __teal__, per-compilation options/graphs/skip set, and that every rewind of the id counter discards what was created since.",
         note="Trusted: ast, resolution code; completeness rests on the closed inventory which the rule enforces.",
         technique="who-may-write/read inventory, typestate (try/finally), typed iteration check",
         ref="4/C11",
     ),
     "C12": dict(
-        text="Decides that constant-block indices and block contents come from the same ordering, that the literal readers are exhaustive and agree with the emitters, enum tables equal the AVM's, and the option plumbing guards the version.",
-        note="Trusted: ast, resolution code, spec/avm.py enums.",
-        technique="sibling cross-check, exhaustiveness, provenance",
+        text="Decides createConstantBlocks by abstract evaluation on op lists mixing repeated/unique, small/large, named, template and differently spelled constants: every load site of the result is resolved through the emitted block and compared with an independent decoder of the TEAL literal grammar; reader/emitter form tables; index range; option plumbing.",
+        note="Trusted: ast, sa.minieval, spec/teal_literals.py.",
+        technique="abstract evaluation + independent literal decoder; exhaustiveness tables",
         ref="4/C12",
     ),
     "C13": dict(
-        text="Decides that every user-supplied string reaches TEAL text only through a validator or escaper, that validator alphabets/tables equal RFC 4648's, and that the escape pipeline mirrors its inverse. The byte value per code point is not decided.",
-        note="Trusted: ast, re._parser regex ASTs, resolution code.",
-        technique="taint with sanitisers, regex-AST comparison",
+        text="Decides literal handling by abstract evaluation of escapeStr, the validators and the Bytes/Int/Addr/MethodSignature constructors+lowerings on systematically generated literals, each result read back by an independent implementation of the TEAL literal grammar (one token, one line, denoted bytes) or compared with an RFC 4648 reference.",
+        note="Trusted: ast, sa.minieval (string operations are Python's own), spec/teal_literals.py.",
+        technique="abstract evaluation over generated literal families + independent grammar",
         ref="4/C13",
     ),
     "C14": dict(
-        text="Decides reference index conventions per arm (append/len ordering), group ordering (transaction arguments then itxn_next, before the call's own fields), assignability guards, and whether both sides of the calling convention reference the argument cutoff.",
-        note="Trusted: ast, resolution code.",
-        technique="ordering (must-precede), sibling cross-check",
+        text="Decides InnerTxnBuilder.MethodCall by abstract evaluation on symbolic signatures: selector first, argument order, reference index conventions and one-byte encoding, foreign arrays, preceding transactions followed by itxn_next, field set, refusal guards, and the assignability relation (shared with C19).",
+        note="Trusted: ast, sa.minieval, spec/arc4.py.",
+        technique="abstract evaluation over symbolic signatures; ordering",
         ref="4/C14",
     ),
     "C15": dict(
-        text="Decides non-interference of source-map state with code generation and that the self-validation steps lie on every path when a source map is requested. Correctness of each line attribution is not decided.",
-        note="Trusted: ast, resolution code.",
-        technique="non-interference taint, must-pass-through",
+        text="Decides the base64-VLQ codec and R3SourceMap.to_json/from_json against an independent Revision-3 encoder/decoder; non-interference of source-map state with code generation (closed list of branch conditions); must-pass-through of the self-validators. Correctness of each line attribution is not decided.",
+        note="Trusted: ast, sa.minieval, the reference codec in rules/c15.py.",
+        technique="abstract evaluation vs reference codec; non-interference inventory; must-pass-through",
         ref="4/C15",
     ),
+    "C16": dict(
+        text="Decides the structural clause of WideRatio exactness: for all factor counts up to a bound the emitted op lists, pushed through a term-level stack machine driven by the AVM op signatures, compute exactly the reference 128-bit recurrences (whose arithmetic identity is proved on paper in DESIGN.md), return the low quotient word of divmodw with the high word asserted zero, and use failing ops wherever a step can overflow. No numeric value is computed.",
+        note="Trusted: ast, sa.minieval, term machine, op signatures; the paper proof of the recurrence.",
+        technique="term-level abstract stack machine over literal op lists vs reference recurrences",
+        ref="4/C16",
+    ),
     "C17": dict(
-        text="Decides that the definite-assignment walk has the shape a sound path-sensitive analysis must have (memo key over block and slot set, ordered scan, all successors explored) and that it is wired so its errors stop compilation before slots are numbered.",
-        note="Trusted: ast, resolution code. Completeness on arbitrary graphs is not decided.",
-        technique="data dependence, must-pass-through",
+        text="Decides the definite-assignment check by abstract evaluation of validateSlots/isTerminal on branch, join, loop, break and early-exit shaped graphs and random small graphs against an independent path-sensitive reference, and its wiring (every routine, only shared slots assumed, before numbering, after the optimiser, error chained).",
+        note="Trusted: ast, sa.minieval, the reference analysis in rules/c17.py. Completeness beyond the explored shapes is not decided.",
+        technique="abstract evaluation on abstract graphs vs reference dataflow; must-pass-through",
         ref="4/C17",
     ),
     "C18": dict(
-        text="Decides that annotation constructs delegate to their child, that the comment op is inert in every pass, and that comment/label text is made single-line and sanitised.",
-        note="Trusted: ast, resolution code.",
-        technique="delegation check, taint",
+        text="Decides that annotations only add comment lines: Comment/Assert(comment)/Pragma/Nonce lowering evaluated for texts with line breaks, comment markers, separators and quotes; comment ops inserted at every position of optimiser inputs; assembly of labels and comment ops; label sanitisation.",
+        note="Trusted: ast, sa.minieval.",
+        technique="abstract evaluation, delegation check",
         ref="4/C18",
     ),
     "C19": dict(
-        text="Finite abstract evaluation of the assignability relation over every ordered pair of ABI TypeSpec classes against ARC-4 layout classes; wherever the relation can hold the two classes must share a layout class. Callers must test the relation before passing storage.",
-        note="Trusted: ast, resolution code, layout classes in spec/arc4.py.",
-        technique="finite abstract evaluation of one pure function over all class pairs",
+        text="Finite abstract evaluation of type_spec_is_assignable_to over every ordered pair of a bounded universe of nested ARC-4 shapes (class membership from the repository's own hierarchy) against ARC-4 layout classes; the documented table; callers check the relation in the right direction before passing storage.",
+        note="Trusted: ast, sa.minieval, layout classes in spec/arc4.py.",
+        technique="finite abstract evaluation of one pure function over all pairs",
         ref="4/C19",
     ),
     "C20": dict(
-        text="Decides crash-freedom structurally: every raise of a non-PyTeal exception type and every assert reachable from the compile entry points is an obligation discharged by a recorded reason or reported; recursion along block successors and unguarded structural recursion are reported.",
-        note="Trusted: ast, call-graph resolution with override fan-out. Acceptance of every well-typed program is not decided.",
-        technique="call-graph reachability, SCC, exception-escape analysis",
+        text="Decides crash-freedom structurally: every assert and non-PyTeal raise in compile-time code is an obligation discharged by a recorded reason or reported; no recursion along block successors; no structural block comparison on the compile path; the graph-rewrite invariants; acceptance of legal programs by the slot allocator and the definite-assignment walk.",
+        note="Trusted: ast, resolution code. Acceptance of every well-typed program is not decided.",
+        technique="exception-escape obligations, recursion-shape check, shared abstract-evaluation rules",
         ref="4/C20",
     ),
 }
 
-NOT_APPLICABLE = {
-    "C16": "WideRatio exactness is a numerical identity over all uint64 factor values; no structural clause of it is decidable statically beyond the stack shape of two literal op lists (decided under C05) - establishing the arithmetic needs symbolic or concrete evaluation, which is another family.",
-}
+NOT_APPLICABLE = {}
 
 
 def main():
@@ -165,7 +169,7 @@ def main():
                 "name": "sa",
                 "path": "/verif/sa",
                 "serves_properties": sorted(c["property_id"] for c in checks),
-                "kind_free_text": "stdlib-ast static analysis of /repo (source model, structured dominance, partial evaluation of constructors, def-use edge facts, table extraction) compared with reference tables in /verif/spec",
+                "kind_free_text": "stdlib-ast static analysis of /repo: source model, structured dominance, partial evaluation of constructors, def-use edge facts, table extraction, and bounded abstract evaluation of the analysed source by /verif/sa/minieval.py (nothing of PyTeal is imported or executed), compared with reference tables and reference semantics in /verif/spec",
             }
         ],
         "checks": checks,
